@@ -11,7 +11,8 @@ from .common import DIMSETS, sym_mesh
 
 META = dict(
     bounds=dict(
-        quick=dict(ndim="1..3", n="1..3 per axis", nvdim="1..3", dims="default / renamed", units="default / custom", labels="default / custom",
+        quick=dict(also="arrays derived from an imported one (every second sample); concrete far-offset geometries (offset/cell up to 1e10, up to 64 cells)",
+                   ndim="1..3", n="1..3 per axis", nvdim="1..3", dims="default / renamed", units="default / custom", labels="default / custom",
                    attrs="complete, each one removed, geometric ones removed together, all removed", dtype="float (symbolic values); int/complex/float32/bool natively"),
         thorough=dict(ndim="1..4", n="1..3 per axis", nvdim="1..4", dims="default / renamed", units="default / custom", labels="default / custom", attrs="as quick", dtype="as quick"),
     ),
